@@ -36,6 +36,7 @@ func (e *FnEnc) run() {
 		return
 	}
 	e.computeLoops()
+	e.bagInit()
 	e.initState = State{}
 	e.heapVars[AllocVar.Name] = AllocVar
 	for _, name := range sortedKeys(e.heapVars) {
@@ -271,6 +272,9 @@ func (e *FnEnc) block(b *ssa.BasicBlock) {
 		e.loopHeader(b, li, fwd, phis, phiIn)
 	}
 	e.entry[b] = copyState(e.cur)
+	for _, p := range phis {
+		e.bagInstr(p)
+	}
 	for _, in := range b.Instrs {
 		switch t := in.(type) {
 		case *ssa.Phi:
@@ -286,12 +290,14 @@ func (e *FnEnc) block(b *ssa.BasicBlock) {
 			e.edge[[2]int{b.Index, b.Succs[0].Index}] = e.curGuard
 		case *ssa.Return:
 			e.ret(t)
+			e.bagInstr(t)
 		case *ssa.Panic:
 			if e.con != nil && e.con.Safe {
 				e.oblige(&Obligation{Name: "safe.panic@" + e.posOf(t), Kind: "safe", Clause: "explicit panic unreachable", Guard: e.curGuard, Goal: "false", Pos: e.posOf(t)})
 			}
 		default:
 			e.instr(in)
+			e.bagInstr(in)
 		}
 	}
 	e.exit[b] = copyState(e.cur)
